@@ -116,6 +116,14 @@ func AddFinalPasses(r *Rand, w *Workload) {
 			w.FinalPasses = w.FinalPasses[:1]
 		}
 	}
+	for _, fp := range w.FinalPasses {
+		if fp == "PrefixObjectNames" && r.Chance(2, 3) {
+			// what a host that prefixes names typically configures next to it: unions turned
+			// into types by the common transformations, for every language alike
+			w.Files["cfg/final_setup_passes.yaml"] = "passes:\n  - disjunction_infer_mapping: {}\n  - disjunction_to_type: {}\n"
+			w.CommonPass = append(w.CommonPass, "cfg/final_setup_passes.yaml")
+		}
+	}
 	w.Name += " +final:" + strings.Join(w.FinalPasses, ",")
 }
 
@@ -420,6 +428,8 @@ func GenShapesWorkload(r *Rand) *Workload {
 			{Name: "byName", T: &WType{K: "map", Elem: &WType{K: "ref", Ref: "Inner"}}},
 			{Name: "inner", T: &WType{K: "ref", Ref: "Inner"}},
 			{Name: "either", T: &WType{K: "union", Branches: []*WType{{K: "ref", Ref: "Inner"}, {K: "ref", Ref: "Other"}}}},
+			{Name: "eitherByName", T: &WType{K: "map", Elem: &WType{K: "union", Branches: []*WType{{K: "ref", Ref: "Inner"}, {K: "ref", Ref: "Other"}}}}},
+			{Name: "eithers", T: &WType{K: "array", Elem: &WType{K: "union", Branches: []*WType{{K: "ref", Ref: "Inner"}, {K: "ref", Ref: "Other"}}}}},
 			{Name: "scalarOrNull", T: &WType{K: "union", Branches: []*WType{str(), {K: "null"}}}},
 		}}},
 	}}
